@@ -29,6 +29,7 @@ import (
 //	  | fwd <site> <prog> | nest <site> <prog>   (chain sites only; see the `wx` section below)
 //	end [hc]
 //
+// `end hf` (chains of ONE handler, no hooks): the handler is used as an http.Handler - rux.HandlerFunc(h).ServeHTTP.
 // `end` dispatches the request through Router.ServeHTTP, `end hc` through the second public entry point:
 // a context built by the caller (`c := &rux.Context{}; c.Init(w, req)`) handed to Router.HandleContext(c).
 // Both entry points must leave exactly the same log on the underlying writer (the model is the same).
@@ -514,6 +515,7 @@ type wSeg struct {
 	acts   []wAct
 	endIdx int  // index of the `end` line, -1 if the segment was cut off
 	hc     bool // dispatch through Router.HandleContext instead of ServeHTTP
+	hf     bool // no router at all: the (single) handler is used as an http.Handler through HandlerFunc.ServeHTTP
 }
 
 // expectation of the property, accumulated from the actions that actually ran
@@ -763,7 +765,14 @@ func (writerEngine) Run(ops []string) (ans []string, oracle []string) {
 					escaped = true
 				}
 			}()
-			if seg.hc {
+			if seg.hf {
+				run.wxRouter = router
+				h := rux.HandlerFunc(func(c *rux.Context) {
+					run.ctx = c
+					run.site(c, 0)
+				})
+				h.ServeHTTP(wrapRec(run.rec, cfg.wkind), req)
+			} else if seg.hc {
 				c := &rux.Context{}
 				c.Init(wrapRec(run.rec, cfg.wkind), req)
 				router.HandleContext(c)
@@ -800,12 +809,15 @@ func (writerEngine) Run(ops []string) (ans []string, oracle []string) {
 			router = buildWriterRouter(cfg, &cur)
 			ans[i] = "ok"
 		case "end":
-			if len(f) != 1 && !(len(f) == 2 && f[1] == "hc") {
+			// `end hf`: only for a chain of one handler on a router without hooks (there is no router in that entry)
+			hfOK := len(f) == 2 && f[1] == "hf" && cfg.k == 1 && !cfg.onPanic && !cfg.onError
+			if len(f) != 1 && !(len(f) == 2 && f[1] == "hc") && !hfOK {
 				ans[i] = "bad-op"
 				continue
 			}
 			seg.endIdx = i
-			seg.hc = len(f) == 2
+			seg.hc = len(f) == 2 && f[1] == "hc"
+			seg.hf = hfOK
 			flush()
 		default:
 			if len(f) < 2 {
@@ -960,6 +972,7 @@ func (writerEngine) Corpus() []Case {
 		{Ops: []string{"chain 1 POST 0 0 none 0 0 1", "status 0 202 0", "wbytes 0 6162 2 0 1", "end", "status 0 204 0", "end"}, Tag: "corpus-wkind-rf"},
 		// the second entry point, Router.HandleContext: chains that write nothing (status only, abort, empty chain,
 		// redirect of a POST) still commit exactly once; mixed with ServeHTTP requests on the same router
+		{Ops: []string{"chain 1 GET 0 0 none 0 0", "status 0 404 0", "end hf", "end hf", "write 0 6869 2 0 0", "end hf", "status 0 201 0", "flush 0", "end hf", "panic 0", "end hf"}, Tag: "corpus-handlerfunc"},
 		{Ops: []string{"chain 1 GET 0 0 none 0 0", "status 0 204 0", "end hc", "end hc", "status 0 404 2", "end", "abort 0 401 nomsg", "end hc"}, Tag: "corpus-hc-status"},
 		{Ops: []string{"chain 3 POST 0 1 none 1 1", "abort 1 403 nomsg", "adderr 3", "status E 500 0", "end hc", wRedirect("2", "303", "/a", 999, 0), "end hc"}, Tag: "corpus-hc-abort"},
 		// HandleContext with a panicking chain: OnPanic sets the status and writes nothing; without hook it escapes
@@ -1161,6 +1174,14 @@ func (e writerEngine) Gen(r *Rand, tier string) Case {
 	for _, i := range ends {
 		if r.Chance(1, 4) {
 			ops[i] = "end hc"
+		}
+	}
+	// chains of one handler without hooks: half of the requests use the handler as an http.Handler (drawn after that)
+	if k == 1 && !onPanic && !onError {
+		for _, i := range ends {
+			if r.Chance(1, 2) {
+				ops[i] = "end hf"
+			}
 		}
 	}
 	ops, wxTag := wxStream(r, ops, k)
